@@ -77,6 +77,7 @@ const TEMPLATES: &[Template] = &[
   Template { name: "cb+own-mostly-fee", inputs: &[In::Cb, In::Own], outputs: &[(Val::Sats(5000), Spk::A)], fee: Fee::Remainder },
   Template { name: "to-empty-script", inputs: &[In::Own], outputs: &[(Val::Rest, Spk::Empty)], fee: Fee::Sats(0) },
   Template { name: "spend-dup-target", inputs: &[In::DupTarget], outputs: &[(Val::Rest, Spk::A)], fee: Fee::Sats(0) },
+  Template { name: "prev0-all-to-fee", inputs: &[In::Prev(0)], outputs: &[(Val::Sats(0), Spk::OpReturn)], fee: Fee::Remainder },
   Template { name: "own+prev0-swap-order", inputs: &[In::Own, In::Prev(0)], outputs: &[(Val::Sats(1), Spk::B), (Val::Rest, Spk::A)], fee: Fee::Sats(7) },
 ];
 
@@ -399,6 +400,7 @@ pub const DENSE: &[(&str, DenseSpec)] = &[
   ("dup-then-spend", &[("", "", "duplicate-of-target"), ("spend-dup-target", "", "full"), ("fee1000", "", "underpay-1")]),
   ("spend-then-dup-twice", &[("spend-dup-target", "fee1000", "duplicate-of-target"), ("all-to-fee", "", "duplicate-of-target"), ("spend-dup-target", "split-uneven", "claim-nothing")]),
   ("lost-in-every-block", &[("cb-first-sat-off", "fee1000", "underpay-1"), ("cb-all-to-fee", "opreturn-data-fee", "claim-nothing"), ("all-to-fee", "", "underpay-fees-and-half")]),
+  ("one-sat-uncommon-range-lost", &[("cb-first-sat-off", "prev0-all-to-fee", "claim-nothing"), ("cb-first-sat-off", "prev0-all-to-fee", "underpay-fees-and-half"), ("", "", "full")]),
   ("dense-1", &[("cb-first-sat-off", "fee1000", "underpay-1"), ("spend-prev0-fee", "all-to-fee", "split-two"), ("split-uneven", "merge-prev0-prev1", "duplicate-of-target")]),
   ("dense-2", &[("spend-dup-target", "opreturn-with-value", "full"), ("cb+own-mostly-fee", "zero-first-output", "duplicate-of-target"), ("to-empty-script", "own+prev0-swap-order", "underpay-fees-and-half")]),
   ("dense-3", &[("2to3-unaligned", "merge-prev0-prev1", "three-way-1sat-first"), ("cb-all-to-fee", "", "claim-nothing"), ("opreturn-data-fee", "split-uneven", "zero-then-full")]),
